@@ -191,6 +191,227 @@ def install():
     at._MetaAbstractArray.__instancecheck_str__ = wrapped
 
 
+
+# ------------------------------------------------------------------ PyTree checks of the repository's own tests
+_ptdepth = [0]
+_pt_out = None
+
+
+class _Unsupported(Exception):
+    pass
+
+
+def _abs_leaftype(t):
+    """leaf type -> the specification's vocabulary (JtPyTree.TypeMatch); raises _Unsupported outside it"""
+    import typing
+    import types
+    import jaxtyping
+    from jaxtyping import AbstractArray
+    from jaxtyping import _pytree_type as pt
+    if t is int:
+        return ["int"]
+    if t is str:
+        return ["str"]
+    if t is typing.Any:
+        return ["any"]
+    if isinstance(t, type) and issubclass(t, AbstractArray):
+        cat = {"Float": "f", "Int": "i", "Shaped": "s"}.get(t.dtype.__name__)
+        if cat is None or getattr(jaxtyping, t.dtype.__name__, None) is not t.dtype:
+            raise _Unsupported("category " + t.dtype.__name__)
+        if t.dtypes is not t.dtype.dtypes and t.dtypes != t.dtype.dtypes:
+            raise _Unsupported("narrowed by nesting")
+        toks = lex_dims(t.dim_str)
+        if toks is None:
+            raise _Unsupported("dims " + t.dim_str)
+        return ["arr", toks, cat]
+    if type(t) is pt._MetaPyTree and hasattr(t, "leaftype"):
+        inner = _abs_leaftype(t.leaftype)
+        if t.structure is None:
+            return ["pt", inner]
+        return ["ptS", inner, _abs_struct_spec(t.structure)]
+    org = typing.get_origin(t)
+    if org is tuple and typing.get_args(t) == (int, int):
+        return ["tup2"]
+    if org is typing.Union or (hasattr(types, "UnionType") and org is types.UnionType):
+        args = typing.get_args(t)
+        if len(args) == 2:
+            return ["union", _abs_leaftype(args[0]), _abs_leaftype(args[1])]
+    raise _Unsupported("leaf type " + repr(t)[:60])
+
+
+def _array_types_of(t, acc):
+    import typing
+    from jaxtyping import AbstractArray
+    if isinstance(t, type) and issubclass(t, AbstractArray):
+        acc.append(t.array_type)
+    elif hasattr(t, "leaftype"):
+        _array_types_of(t.leaftype, acc)
+    else:
+        for a in typing.get_args(t) or ():
+            _array_types_of(a, acc)
+    return acc
+
+
+def _abs_struct_spec(s):
+    if s is None:
+        return {"pieces": [], "dots": "none", "str": ""}
+    pieces = s.split()
+    dots = "none"
+    if pieces[0] == "...":
+        pieces, dots = pieces[1:], "pre"
+    elif pieces[-1] == "...":
+        pieces, dots = pieces[:-1], "post"
+    return {"pieces": pieces, "dots": dots, "str": " ".join(s.split())}
+
+
+def _abs_tree(o, array_types):
+    """a real tree -> the specification's trees (containers known to JAX by default; atoms int / str / float / array)"""
+    import numpy as np
+    node = lambda k, c=(), keys=(): {"k": k, "c": list(c), "keys": list(keys), "shape": [], "dt": ""}
+    if o is None:
+        return node("none")
+    if isinstance(o, bool):
+        raise _Unsupported("bool leaf")
+    if isinstance(o, int):
+        return node("int")
+    if isinstance(o, str):
+        return node("str")
+    if isinstance(o, float):
+        return node("flt")
+    if hasattr(o, "shape") and hasattr(o, "dtype"):
+        for at_ in array_types:
+            if at_ is not __import__("typing").Any:
+                try:
+                    if not isinstance(o, at_):
+                        raise _Unsupported("array leaf of another array type")
+                except TypeError:
+                    raise _Unsupported("array type not a class")
+        try:
+            kind = np.dtype(o.dtype).kind
+            name = np.dtype(o.dtype).name
+        except Exception:
+            raise _Unsupported("dtype")
+        if any(not isinstance(i, int) for i in o.shape):
+            raise _Unsupported("symbolic shape")
+        dt = "f" if (kind == "f" and name in ("float16", "float32", "float64")) else "i" if kind == "i" else None
+        if dt is None:
+            raise _Unsupported("dtype " + name)
+        return {"k": "arr", "c": [], "keys": [], "shape": [int(i) for i in o.shape], "dt": dt}
+    if type(o) is tuple:
+        return node("tuple", [_abs_tree(c, array_types) for c in o])
+    if type(o) is list:
+        return node("list", [_abs_tree(c, array_types) for c in o])
+    if type(o) is dict:
+        if not all(isinstance(k, str) for k in o):
+            raise _Unsupported("dict keys")
+        ks = sorted(o)
+        return node("dict", [_abs_tree(o[k], array_types) for k in ks], ks)
+    raise _Unsupported("node " + type(o).__name__)
+
+
+def _abs_treedef(td):
+    import jax.tree_util as jtu
+    star = object()
+
+    def conv(o):
+        if o is star:
+            return {"k": "*", "c": [], "keys": []}
+        if o is None:
+            return {"k": "none", "c": [], "keys": []}
+        if type(o) is tuple:
+            return {"k": "tuple", "c": [conv(c) for c in o], "keys": []}
+        if type(o) is list:
+            return {"k": "list", "c": [conv(c) for c in o], "keys": []}
+        if type(o) is dict and all(isinstance(k, str) for k in o):
+            ks = sorted(o)
+            return {"k": "dict", "c": [conv(o[k]) for k in ks], "keys": ks}
+        raise _Unsupported("treedef node " + type(o).__name__)
+    return conv(jtu.tree_unflatten(td, [star] * td.num_leaves))
+
+
+def _pmemo():
+    from jaxtyping import _storage as st
+    single, variadic, pytree, args = st.get_shape_memo()
+
+    def key(k):
+        m = re.match(r"^\(Leaf (\d+) in structure (.*?)\) (.*)$", k, re.S)
+        return f"<{m.group(1)}|{m.group(2)}>{m.group(3)}" if m else k
+    if any(not isinstance(v, int) for v in single.values()):
+        raise _Unsupported("non-int binding")
+    return ({"single": {key(k): int(v) for k, v in single.items()},
+             "variadic": {key(k): {"b": bool(b), "s": [int(i) for i in s]} for k, (b, s) in variadic.items()},
+             "pytree": {k: _abs_treedef(v) for k, v in pytree.items()}},
+            {k: v for k, v in args.items() if isinstance(v, int) and not isinstance(v, bool)},
+            len(getattr(st._shape_storage, "memo_stack", [])))
+
+
+def install_pytree():
+    """records every OUTERMOST PyTree[...] check of the repository's tests (leaf type, structure spec, tree, context before /
+    after, verdict) in the specification's vocabulary; what lies outside it is recorded as unsupported (and counted)"""
+    global _pt_out
+    from jaxtyping import _pytree_type as pt
+    from jaxtyping import AnnotationError
+    d = os.environ.get("VERIF_TRACE_DIR")
+    if not d:
+        return
+    _pt_out = open(os.path.join(d, f"pt_{os.getpid()}.ndjson.pt"), "a")
+    orig = pt._MetaPyTree.__instancecheck__
+    E = {"single": {}, "variadic": {}, "pytree": {}}
+
+    def wrapped(cls, obj):
+        if _ptdepth[0] or not hasattr(cls, "leaftype") or obj is None:
+            return orig(cls, obj)
+        lab_abs, _ = _label()
+        if lab_abs or pt.get_treeflatten_memo():
+            return orig(cls, obj)        # a leaf check of an enclosing PyTree check that is not ours
+        _ptdepth[0] += 1
+        try:
+            why, pre, args, depth = None, E, {}, 0
+            try:
+                pre, args, depth = _pmemo()
+            except _Unsupported as e:
+                why = str(e)
+            except Exception as e:  # noqa
+                why = "pre:" + type(e).__name__
+            res = None
+            try:
+                out = orig(cls, obj)
+                res = "T" if out else "F"
+                return out
+            except AnnotationError:
+                res = "E"
+                raise
+            except BaseException as e:  # noqa
+                res = "Exc:" + type(e).__name__
+                raise
+            finally:
+                row = {"id": _n[0], "test": os.environ.get("PYTEST_CURRENT_TEST", "").split(" ")[0], "hint": cls.__name__[:120]}
+                _n[0] += 1
+                try:
+                    if why is None:
+                        post, _, depth2 = _pmemo()
+                        if depth != depth2:
+                            raise _Unsupported("stack depth changed")
+                        L = _abs_leaftype(cls.leaftype)
+                        x = _abs_tree(obj, _array_types_of(cls.leaftype, []))
+                        row.update(L=L, S=_abs_struct_spec(cls.structure), x=x, pre=pre if depth else E, args=args if depth else {},
+                                   res=res, post=post if depth else E, instack=bool(depth), bare=False, unsupported=False)
+                    else:
+                        raise _Unsupported(why)
+                except _Unsupported as e:
+                    row.update(unsupported=True, why=str(e))
+                except Exception as e:  # noqa - never disturb the test
+                    row.update(unsupported=True, why="error:" + type(e).__name__ + ":" + str(e)[:80])
+                if row.get("unsupported"):
+                    row.update(L=["any"], S=_abs_struct_spec(None), x={"k": "none", "c": [], "keys": [], "shape": [], "dt": ""}, pre=E,
+                               args={}, res="T", post=E, instack=False, bare=False)
+                _pt_out.write(json.dumps(row, separators=(",", ":")) + "\n")
+                _pt_out.flush()
+        finally:
+            _ptdepth[0] -= 1
+    pt._MetaPyTree.__instancecheck__ = wrapped
+
+
 _stack_out = None
 _tids = {}
 
@@ -256,6 +477,7 @@ def pytest_configure(config):
     if os.environ.get("JAXTYPING_VERIF") == "1":
         install()
         install_stack_events()
+        install_pytree()
 
 
 def pytest_unconfigure(config):
